@@ -113,7 +113,7 @@ func executeUDP(c *fw.Ctx, ru *Run) {
 			case e.Kind == "enter" && e.Who == "span" && t0 < 0:
 				t0 = e.T + time.Duration(ru.LatencyMs)*time.Millisecond
 			case e.Kind == "read" && e.Who == "sink":
-				samples = append(samples, sample{e.T, e.N})
+				samples = append(samples, sample{t: e.T, n: e.N})
 			}
 		}
 		hmods.Untrack("udp:" + cl.addr)
